@@ -4,53 +4,71 @@ from .core import Finding, callee, callee_fn, callee_name, op_const
 from .tests import Atoms, consts_of, params_of, calls_of, tests_of
 
 
+def _bases_errors(raw, es, offs, szs, mx):
+    n = len(raw) // es
+    bad = []
+    if n != 257:
+        bad.append("table has %d entries, expected 257" % n)
+    cells = 0
+    for r in range(n):
+        e = raw[r * es : (r + 1) * es]
+        base = int.from_bytes(e[offs[0] : offs[0] + szs[0]], "little")
+        power = int.from_bytes(e[offs[1] : offs[1] + szs[1]], "little")
+        pow2 = r != 0 and (r & (r - 1)) == 0
+        if r < 3 or r > 255 or pow2:
+            if (base, power) != (0, 0):
+                bad.append("entry %d should be (0,0), is (%d,%d)" % (r, base, power))
+            continue
+        cells += 1
+        if power < 1 or base != r**power:
+            bad.append("entry %d: base %d != %d^%d" % (r, base, r, power))
+        elif base > mx:
+            bad.append("entry %d: base %d exceeds the digit maximum" % (r, base))
+        elif base * r <= mx:
+            bad.append("entry %d: %d^%d still fits (power not maximal)" % (r, r, power + 1))
+    return bad, cells
+
+
 def check_bases(ctx, res, config="all"):
+    """the per-radix (base, power) tables, wherever they live and whatever they are called: every const-evaluated static of 257
+    two-field entries whose first field is a digit is judged as a whole-digit table and as a half-digit table; exactly one of
+    each role must exist and be right"""
     facts = ctx.facts(config)
-    found = 0
+    cands = []
     for st in facts.statics:
-        if not st["path"].endswith("::BASES") or "bytes" not in st:
+        if "bytes" not in st or not st.get("elem_field_offsets") or len(st.get("elem_field_sizes", [])) != 2:
             continue
-        parent = st.get("parent", "")
-        if not (parent.endswith("get_radix_base") or parent.endswith("get_half_radix_base")):
-            res.note("static %s has an unknown role" % st["path"])
-            continue
-        found += 1
         raw = bytes.fromhex(st["bytes"])
         es = st["elem_size"]
-        offs = st["elem_field_offsets"]
-        szs = st["elem_field_sizes"]
-        # the digit width is the size of the table's first field (u64 digits on 64-bit targets, u32 digits otherwise)
+        if not es or len(raw) // es < 200:
+            continue
+        cands.append((st, raw, es, st["elem_field_offsets"], st["elem_field_sizes"]))
+    roles = {"full": [], "half": []}
+    for (st, raw, es, offs, szs) in cands:
         digit_bits = 8 * szs[0]
-        mx = (1 << digit_bits) - 1 if parent.endswith("get_radix_base") else (1 << (digit_bits // 2)) - 1
-        n = len(raw) // es
-        bad = []
-        if n != 257:
-            bad.append("table has %d entries, expected 257" % n)
-        cells = 0
-        for r in range(n):
-            e = raw[r * es : (r + 1) * es]
-            base = int.from_bytes(e[offs[0] : offs[0] + szs[0]], "little")
-            power = int.from_bytes(e[offs[1] : offs[1] + szs[1]], "little")
-            pow2 = r != 0 and (r & (r - 1)) == 0
-            if r < 3 or r > 255 or pow2:
-                if (base, power) != (0, 0):
-                    bad.append("entry %d should be (0,0), is (%d,%d)" % (r, base, power))
-                continue
-            cells += 1
-            if power < 1 or base != r**power:
-                bad.append("entry %d: base %d != %d^%d" % (r, base, r, power))
-            elif base > mx:
-                bad.append("entry %d: base %d exceeds the digit maximum" % (r, base))
-            elif base * r <= mx:
-                bad.append("entry %d: %d^%d still fits (power not maximal)" % (r, r, power + 1))
-        key = parent.split("::")[-1] + "::BASES"
+        e_full, c_full = _bases_errors(raw, es, offs, szs, (1 << digit_bits) - 1)
+        e_half, c_half = _bases_errors(raw, es, offs, szs, (1 << (digit_bits // 2)) - 1)
+        # role by name when the crate's names are used, else by which role the content satisfies (fewer errors)
+        parent = st.get("parent", "") + "::" + st["path"]
+        if "half" in parent.lower():
+            role = "half"
+        elif len(e_half) < len(e_full):
+            role = "half"
+        else:
+            role = "full"
+        errs, cells = (e_half, c_half) if role == "half" else (e_full, c_full)
+        roles[role].append((st, errs, cells))
+    for role, lst in roles.items():
+        key = ("get_radix_base" if role == "full" else "get_half_radix_base") + "::BASES"
+        if len(lst) != 1:
+            res.fail(Finding("R7-anchor-lost", "BASES", "expected exactly one %s-digit per-radix table, found %d" % (role, len(lst)), file="src/biguint/convert.rs", line=0))
+            continue
+        st, bad, cells = lst[0]
         if bad:
             res.fail(Finding("R7-bases-table", key, "per-radix (base, power) table is wrong: " + "; ".join(bad[:4]), file=st["file"], line=st["line"]))
         else:
-            res.ok("R7-bases-table", key, {"radices_checked": cells, "max": mx})
+            res.ok("R7-bases-table", key, {"radices_checked": cells, "static": st["path"], "role": role})
             res.count("R7 BASES cells verified", cells)
-    if found < 2:
-        res.fail(Finding("R7-anchor-lost", "BASES", "only %d of the 2 BASES tables found/evaluated" % found, file="src/biguint/convert.rs", line=0))
     res.clause("R7: both const-evaluated BASES tables hold, for every non-power-of-two radix 3..255, the largest power of the radix fitting a (half) digit; other entries are (0,0)")
 
 
@@ -252,6 +270,10 @@ def check_serde_tables(ctx, res, config="all"):
             key = "Sign::%s->i8" % name
             if got.get(name) == want[name]:
                 res.ok("R7-serde-sign-table", key, {"value": want[name]})
+            elif got.get(name) is None:
+                # the encoding is not a constant on the variant's path (a lookup table, a computed value): not decided
+                res.note("R7-serde-sign-table: the byte written for Sign::%s cannot be read off its path through Serialize for Sign (table lookup or computed value) - not decided" % name)
+                res.ok("R7-serde-sign-table", key, {"undecided": True}, nontrivial=False)
             else:
                 res.fail(Finding("R7-serde-sign-table", key, "Sign::%s serializes as %r, expected the i8 %d" % (name, got.get(name), want[name]), b))
     # --- Deserialize for Sign
@@ -287,14 +309,20 @@ def check_serde_tables(ctx, res, config="all"):
                     if ags:
                         ok_tab[sv] = ags[0]["rv"]["variant"]
                         break
+        has_i8_switch = any(t.get("discr_ty") == "i8" and i in b.live_blocks() for i, t in b.terms("switch"))
         for name, v in want.items():
             key = "i8 %d->Sign" % v
             if ok_tab.get(v) == name:
                 res.ok("R7-serde-sign-table", key, {"variant": name})
+            elif not has_i8_switch:
+                res.note("R7-serde-sign-table: Deserialize for Sign does not branch on the byte (table lookup) - the inverse mapping of %d is not decided" % v)
+                res.ok("R7-serde-sign-table", key, {"undecided": True}, nontrivial=False)
             else:
                 res.fail(Finding("R7-serde-sign-table", key, "i8 %d deserializes to %r, expected Sign::%s" % (v, ok_tab.get(v), name), b))
         extra = [v for v in ok_tab if v not in want.values()]
-        if rejects and not extra:
+        if not has_i8_switch:
+            res.ok("R7-serde-sign-table", "other i8->Err", {"undecided": True}, nontrivial=False)
+        elif rejects and not extra:
             res.ok("R7-serde-sign-table", "other i8->Err", {"rejects": True})
         else:
             res.fail(Finding("R7-serde-sign-table", "other i8->Err", "sign bytes other than -1, 0, 1 are not rejected with an error (extra accepted values: %s)" % extra, b))
@@ -401,7 +429,9 @@ def check_serde_tables(ctx, res, config="all"):
         elif same:
             res.ok("R7-serde-len-agrees", "Serialize for BigUint", {"tested_local": b.locals[same[0]].get("name"), "uses": len(groups[same[0]])})
         else:
-            res.fail(Finding("R7-serde-len-agrees", "Serialize for BigUint", "the declared sequence length and the conditional emission of the last high u32 do not test the same value", b))
+            # superseded by R7-serde-declared-length, which evaluates both sides; this syntactic form is only a cross-check
+            res.note("R7-serde-len-agrees: the declared length and the emission of the last high u32 are not written as tests of one named value (decided by R7-serde-declared-length instead)")
+            res.ok("R7-serde-len-agrees", "Serialize for BigUint", {"undecided": True}, nontrivial=False)
         # emission order: for every full digit lo then hi
     else:
         res.fail(Finding("R7-anchor-lost", "Serialize for BigUint", "impl not found", file="src/biguint/serde.rs", line=0))
@@ -418,6 +448,7 @@ def check_serde_hint_confined(ctx, res, config="all"):
     for b in facts.bodies:
         if "serde" not in (b.file or "") or b.name != "visit_seq":
             continue
+        b = core.inline_private(facts, b, keep=("biguint_from_vec", "normalized", "normalize"))  # element collection may live in a private helper
         sources = []
         for i, t in b.calls():
             if i in b.live_blocks() and callee_name(t) in ("size_hint", "cautious"):
@@ -465,6 +496,13 @@ def check_serde_declared_length(ctx, res, config="all"):
         return _base_of_local(b, pl["local"]) if pl else None
 
     same_slice = base_of(lens[0][1]["args"][0]) == base_of(iters[0][1]["args"][0])
+    if not same_slice:
+        # the loop may run over an adaptor chain on the slice: data.iter().map(..), .copied(), .rev() ...
+        fl_ = core.Flow(b, transparent={"iter", "map", "into_iter", "copied", "cloned", "by_ref", "deref", "as_ref", "as_slice"})
+        r_len = fl_.roots_of_operand(lens[0][1]["args"][0])
+        r_it = {r for r in fl_.roots_of_operand(iters[0][1]["args"][0]) if r[0] != "local" or "closure" not in b.local_ty(r[1])}
+        closure_free = {r for r in r_it if not (r[0] == "local" and b.local_ty(r[1]).startswith("{closure"))}
+        same_slice = bool(r_len) and r_len <= closure_free | r_it and bool(closure_free & r_len)
     # the announced length operand: serialize_seq(.., Some(len))
     opt = core.op_local(seqs[0][1]["args"][1])
     ds = b.defs().get(opt, []) if opt is not None else []
@@ -508,10 +546,11 @@ def check_serde_declared_length(ctx, res, config="all"):
         return cnt
 
     bad = None
+    bad_canon = None
     cases = 0
     try:
         for n in (0, 1, 2, 5):
-            for lo in (0, 9):
+            for lo in (0, 9, 0xFFFFFFFF):
                 for hi in (0, 3):
                     env = {lens[0][1]["dest"]["local"]: n, last_l[0]: (hi << 32) | lo}
                     announced = r4.eval_int(b, len_op, env)
@@ -521,12 +560,19 @@ def check_serde_declared_length(ctx, res, config="all"):
                     cases += 1
                     if announced != emitted and bad is None:
                         bad = (n, lo, hi, announced, emitted)
+                    # "no trailing zero digit": the u32 sequence has 2 elements per full digit, the low half of the top digit
+                    # and its high half exactly when that half is non-zero
+                    canonical = 2 * n + 1 + (1 if hi else 0)
+                    if (lo or hi) and emitted != canonical and bad_canon is None:
+                        bad_canon = (n, lo, hi, emitted, canonical)
     except r4.CantEval as e:
         res.note("R7-serde-declared-length: the announced length cannot be evaluated from MIR (%s) - not decided" % e)
         res.clause("R7: announced sequence length = number of emitted elements (not decided)")
         return
     if not same_slice:
         res.fail(Finding("R7-serde-declared-length", "Serialize for BigUint", "the element loop does not run over the slice whose len() is announced", b))
+    elif bad_canon and not bad:
+        res.fail(Finding("R7-serde-trailing-zero", "Serialize for BigUint", "%d elements are emitted for %d full digits and a top digit with low half %#x, high half %#x; the base-2^32 sequence without a trailing zero digit has %d" % (bad_canon[3], bad_canon[0], bad_canon[1], bad_canon[2], bad_canon[4]), b, seqs[0][1]["span"]["line"]))
     elif bad:
         res.fail(Finding("R7-serde-declared-length", "Serialize for BigUint", "announced length %d but %d elements are emitted for %d full digits and a top digit with low half %s, high half %s: a length-prefixed format drops or misreads digits" % (bad[3], bad[4], bad[0], "zero" if not bad[1] else "non-zero", "zero" if not bad[2] else "non-zero"), b, seqs[0][1]["span"]["line"]))
     else:
